@@ -63,17 +63,18 @@ def windows_code(prefixes, tail: bytes) -> bytes:
     return b"".join(p + tail + NOP_SLED for p in prefixes)
 
 
-def real_stream_and_list(h, mop, text: str, name="t.txt"):
-    """Run the real parser+consumer on a listing text: (stream string, parsed Instruction list)."""
+def real_stream_and_list(h, mop, text: str, name="t.txt", crlf=False):
+    """Run the real parser+consumer on a listing text: (stream string, parsed Instruction list).
+    crlf: the file is written with DOS line endings (the same lines; the stream must not change)"""
     from jasm.stringify_asm.implementations.gnu_objdump.asm_manual_parser_w_regex import parse_file_lines
     from jasm.global_definitions import Instruction
-    path = h.write(name, text)
+    path = h.write(name, text.replace("\n", "\r\n").encode("utf-8") if crlf else text)
     stream = h.match(mop, path, ret="stream")
     parsed = [e for e in parse_file_lines(text.split("\n")) if isinstance(e, Instruction)]
     return stream, parsed
 
 
-def analyse_text(h, mop, text: str, clauses):
+def analyse_text(h, mop, text: str, clauses, crlf=False):
     """Compare the real parser's view of `text` with P.  Returns list of (clause, line/ctx, expected, observed),
     plus counters dict.  clauses subset of {'count','crash','mnemonic','operands','encoding'}."""
     problems = []
@@ -86,7 +87,7 @@ def analyse_text(h, mop, text: str, clauses):
     cnt["cont_lines"] = sum(1 for c in cls if c[0] == "cont")
     cnt["other_lines"] = len(lines) - cnt["inst_lines"] - cnt["cont_lines"]
     try:
-        stream, parsed = real_stream_and_list(h, mop, text)
+        stream, parsed = real_stream_and_list(h, mop, text, crlf=crlf)
     except Exception as e:  # noqa
         if "crash" in clauses or "count" in clauses:
             # find the first offending line for the replay
@@ -223,7 +224,7 @@ def replay_line(case, h, clauses):
     """Replay a single recorded objdump line through parse_line / the consumer."""
     line = case.get("line")
     text = "\n".join(["", "x:     file format elf64-x86-64", "", "Disassembly of section .text:", "", line or "", ""])
-    problems, _ = analyse_text(h, h.mop(_TRIVIAL_RULE), text, clauses)
+    problems, _ = analyse_text(h, h.mop(_TRIVIAL_RULE), text, clauses, crlf=bool(case.get("crlf")))
     problems = [p for p in problems if p[0] == case["clause"]]
     return bool(problems), str(problems)
 
@@ -430,14 +431,15 @@ def run_corpus(shard, h, res, known, clauses):
     for p in shard.get("listings", []):
         texts.append((p, open(p, encoding="utf-8", errors="replace").read()))
     for path, text in texts:
-        problems, cnt = analyse_text(h, mop, text, clauses)
-        res.evaluations += cnt["inst_lines"]
-        res.nontrivial += cnt["inst_lines"]
-        res.count("corpus_lines", cnt["inst_lines"])
-        res.count("corpus_files")
-        for clause, line, exp, obs in problems[:40]:
-            res.fail({"clause": clause, "family": "corpus", "file": path.replace(REPO, "<repo>"), "line": line, "expected": str(exp)[:300],
-                      "observed": str(obs)[:300], "size": len(line or "")}, known)
+        for crlf in ((False, True) if len(text) < 200000 else (False,)):     # smaller listings also with DOS line endings
+            problems, cnt = analyse_text(h, mop, text, clauses, crlf=crlf)
+            res.evaluations += cnt["inst_lines"]
+            res.nontrivial += cnt["inst_lines"]
+            res.count("corpus_lines", cnt["inst_lines"])
+            res.count("corpus_files")
+            for clause, line, exp, obs in problems[:40]:
+                res.fail({"clause": clause, "family": "corpus", "file": path.replace(REPO, "<repo>"), "line": line, "crlf": crlf, "expected": str(exp)[:300],
+                          "observed": str(obs)[:300], "size": len(line or "")}, known)
 
 
 def run_exotic(h, res, known, clauses):
@@ -449,10 +451,11 @@ def run_exotic(h, res, known, clauses):
         if r.returncode != 0:
             raise HarnessError(f"as failed on the exotic-{cls} source: " + r.stderr[:400])
         text = objdump_text(obj)
-        problems, cnt = analyse_text(h, mop, text, clauses)
-        res.evaluations += cnt["inst_lines"]
-        res.nontrivial += cnt["inst_lines"]
-        res.count("exotic_lines", cnt["inst_lines"])
-        for clause, line, exp, obs in problems:
-            res.fail({"clause": clause, "family": "exotic", "line": line, "elfclass": cls, "expected": str(exp)[:300],
-                      "observed": str(obs)[:300], "size": len(line or "")}, known)
+        for crlf in (False, True):       # the same listing saved with DOS line endings
+            problems, cnt = analyse_text(h, mop, text, clauses, crlf=crlf)
+            res.evaluations += cnt["inst_lines"]
+            res.nontrivial += cnt["inst_lines"]
+            res.count("exotic_lines", cnt["inst_lines"])
+            for clause, line, exp, obs in problems:
+                res.fail({"clause": clause, "family": "exotic", "line": line, "elfclass": cls, "crlf": crlf, "expected": str(exp)[:300],
+                          "observed": str(obs)[:300], "size": len(line or "")}, known)
